@@ -169,6 +169,55 @@ func (fg *FG) define(prefix, sort, term string) string {
 }
 
 func (fg *FG) oblig(kind, name, tag, guard, goal, src, pos string) *Oblig {
+	parts := splitGoal(goal)
+	var last *Oblig
+	for i, g := range parts {
+		nm := name
+		if len(parts) > 1 {
+			nm = fmt.Sprintf("%s/%d", name, i)
+		}
+		last = fg.oblig1(kind, nm, tag, guard, g, src, pos)
+	}
+	return last
+}
+
+// splitGoal splits top-level conjunctions (also under implications) into separate goals.
+func splitGoal(goal string) []string {
+	if len(goal) > 200000 {
+		return []string{goal}
+	}
+	n := parseSx(goal)
+	if n == nil {
+		return []string{goal}
+	}
+	var out []string
+	var rec func(n *sx, hyps []string)
+	rec = func(n *sx, hyps []string) {
+		h := n.head()
+		if h == "and" && len(n.kids) > 1 {
+			for _, k := range n.kids[1:] {
+				rec(k, hyps)
+			}
+			return
+		}
+		if h == "=>" && len(n.kids) == 3 {
+			rec(n.kids[2], append(append([]string{}, hyps...), n.kids[1].String()))
+			return
+		}
+		g := n.String()
+		for i := len(hyps) - 1; i >= 0; i-- {
+			g = fmt.Sprintf("(=> %s %s)", hyps[i], g)
+		}
+		out = append(out, g)
+	}
+	rec(n, nil)
+	if len(out) == 0 || len(out) > 24 {
+		return []string{goal}
+	}
+	return out
+}
+
+func (fg *FG) oblig1(kind, name, tag, guard, goal, src, pos string) *Oblig {
 	fg.nobl++
 	o := &Oblig{Name: name, Kind: kind, Tag: tag, Fn: fg.name, Goal: goal, Guard: guard, Src: src, Pos: pos, seq: len(fg.items), fg: fg}
 	fg.items = append(fg.items, item{kind: itOblig, ob: o})
